@@ -192,11 +192,15 @@ def phaseName : Phase → String
 fixes/C25-noncurrent-expiration-if-match.patch is committed in /repo. -/
 def guardVersionedInCode : Bool := false
 
+/-- `strictDm = false`: the code as it is. Flip to `true` once
+fixes/C25-expired-delete-marker-sole-version.patch is committed in /repo. -/
+def strictDmInCode : Bool := false
+
 def modelCalls (rules : List Rule) (now : Int) (ph : Phase) (p : PhaseObs) : List Call :=
   match ph with
   | .expire => expirePhase rules now p.objs
   | .transition => transitionPhase rules now p.objs
-  | .dm => dmPhase rules p.vers
+  | .dm => dmPhase strictDmInCode rules p.vers
   | .ncExpire => ncExpirePhase guardVersionedInCode rules now p.vers
   | .ncTransition => ncTransitionPhase rules now p.vers
   | .abort => abortPhase rules now p.upls
@@ -225,10 +229,15 @@ def findIdx (vid : Bytes) : List Truth → Nat → Option (Nat × Truth)
   | [], _ => none
   | t :: ts, i => if t.v.vid == vid then some (i, t) else findIdx vid ts (i + 1)
 
-/-- LastModified order (newest first) differs from the true version order -/
-def lmPerturbed : List Truth → Bool
-  | a :: b :: rest => a.lm < b.lm || lmPerturbed (b :: rest)
+/-- not descending -/
+def notDescending : List Int → Bool
+  | a :: b :: rest => a < b || notDescending (b :: rest)
   | _ => false
+
+/-- In the listing this sweep was served, the LastModified order of the key's versions (newest
+first) differs from their true version order. -/
+def lmPerturbed (listed : List Ver) (key : Bytes) (truth : List Truth) : Bool :=
+  notDescending (truth.filterMap fun t => (listed.find? fun v => v.key == key && v.vid == t.v.vid).map (·.lm))
 
 structure JOut where
   vio : List (String × String) := []
@@ -244,13 +253,15 @@ expiration over transition" is demanded only where the expiration is due when th
 by the true instants AND by the LastModified the storage reports for the successor (a storage
 whose LastModified runs late makes the reconciler late, which the property does not forbid). -/
 def judgeNoncurrent (rules : List Rule) (now : Int) (key : Bytes) (truth : List Truth) (i : Nat) (t : Truth)
-    (target : Option Bytes) : JOut :=
+    (target : Option Bytes) (gone : List (Bytes × Int)) (perturbed : Bool) : JOut :=
   let pred := truth.getD (i - 1) t
   let since := t.since.getD pred.v.created
-  let newer := i - 1                                                       -- every newer noncurrent version, delete markers included
-  let newerObj := (((truth.take i).drop 1).filter (fun x => !x.v.dm)).length   -- … delete markers not counted
+  -- every newer noncurrent version, delete markers included, and those this very sweep has already removed
+  let newer := i - 1 + (gone.filter fun g => g.1 == key && t.v.created < g.2).length
+  -- … delete markers not counted, nor what a write after the listing added
+  let newerObj := (((truth.take i).drop 1).filter (fun x => !x.v.dm)).length - ((truth.take i).filter (·.isNew)).length
   let v := t.v
-  let pert := if lmPerturbed truth then ".lastmodified-order" else ""
+  let pert := if perturbed then ".lastmodified-order" else ""
   match target with
   | none =>
     if ncExpireJustified rules now key v.size v.tags since newer then { label := "nc-expire-justified" }
@@ -268,14 +279,14 @@ def judgeNoncurrent (rules : List Rule) (now : Int) (key : Bytes) (truth : List 
              label := "nc-transition-unjustified" }
     else if ncExpireJustified rules now key v.size v.tags since newerObj && ncExpireJustified rules now key v.size v.tags pred.lm newerObj then
       let kind :=
-        if lmPerturbed truth then ".lastmodified-order"
+        if perturbed then ".lastmodified-order"
         else if newerObj ≥ 1 && !ncExpireJustified rules now key v.size v.tags since (newerObj - 1) then ".retained-as-n-plus-first"
         else ""
       { vio := [(s!"C25.noncurrent-transition-while-expiration-due{kind}", s!"version {toHex v.vid} of {toHex key} ({newer} newer noncurrent versions) is due for NoncurrentVersionExpiration under S3 semantics but was transitioned")],
         label := "nc-transition-unjustified" }
     else { label := "nc-transition-justified" }
 
-def judgeCall (rules : List Rule) (now : Int) (c : CallObs) : JOut :=
+def judgeCall (rules : List Rule) (now : Int) (listed : List Ver) (c : CallObs) (gone : List (Bytes × Int)) : JOut :=
   let accepted := c.result == "ok"
   match c.call with
   | .del key none ifm =>
@@ -314,7 +325,7 @@ def judgeCall (rules : List Rule) (now : Int) (c : CallObs) : JOut :=
       else if t.v.dm && c.swapped && !t.isNew && dmJustified rules key then
         -- the marker was the key's only version when listed and lost currency before the delete
         { label := "dm-lost-currency-after-listing" }
-      else judgeNoncurrent rules now key c.truth i t none
+      else judgeNoncurrent rules now key c.truth i t none gone (lmPerturbed listed key c.truth)
   | .trans key target vid ifm =>
     let found := match vid with
       | none => (c.truth.head?).map (fun t => (0, t))
@@ -329,10 +340,10 @@ def judgeCall (rules : List Rule) (now : Int) (c : CallObs) : JOut :=
         if !transitionJustified rules now key t.v.size t.v.tags t.v.created target then
           let sig := if t.isNew then "C25.acted-on-replaced-object.transition" else "C25.current-transitioned-not-due"
           { vio := [(sig, s!"current version of {toHex key} transitioned to {toHex target}, no enabled matching rule is due")], label := "transition-unjustified" }
-        else if expireJustified rules now key t.v.size t.v.tags t.v.created && expireJustified rules now key t.v.size t.v.tags t.lm then
+        else if !t.isNew && expireJustified rules now key t.v.size t.v.tags t.v.created && expireJustified rules now key t.v.size t.v.tags t.lm then
           { vio := [("C25.transition-while-expiration-due", s!"current version of {toHex key} is due for expiration but was transitioned")], label := "transition-unjustified" }
         else { label := "transition-justified" }
-      else judgeNoncurrent rules now key c.truth i t (some target)
+      else judgeNoncurrent rules now key c.truth i t (some target) gone (lmPerturbed listed key c.truth)
   | .abort key _ =>
     match c.tu with
     | some (some initiated) =>
@@ -356,12 +367,22 @@ def judgeCase (_k : Nat) (lines : List String) : Verdict := Id.run do
   if s.panics.isEmpty then
     div := div ++ tie rules s.now obs
   let calls := obs.flatMap (·.calls)
-  for c in calls do
+  for p in obs do
+   let mut gone : List (Bytes × Int) := []     -- versions this sweep has already removed: (key, created)
+   for c in p.calls do
     if s.valid then
-      let j := judgeCall rules s.now c
+      let j := judgeCall rules s.now p.vers c gone
       vio := vio ++ j.vio
       div := div ++ j.div
       stats := addStats stats [("judged_" ++ j.label, 1)]
+    match c.call with
+    | .del key (some vid) _ =>
+      if c.result == "ok" then
+        match findIdx vid c.truth 0 with
+        | some (_, t) => gone := (key, t.v.created) :: gone
+        | none => pure ()
+    | _ => pure ()
+  for c in calls do
     match c.call with
     | .del _ none _ => stats := addStats stats [("call_delete_current", 1)]
     | .del _ (some _) _ => stats := addStats stats [("call_delete_version", 1)]
